@@ -162,6 +162,32 @@ Section CodecProofs.
       split; [|rewrite Hl; reflexivity]. rewrite <- app_assoc, Hbs. exact Hbx.
   Qed.
 
+  (** ** generic combinators: the converse direction *)
+  Lemma tr_none {A} (d : dec A) : tr (fun _ => None) d.
+  Proof. intros v bs rest H. discriminate. Qed.
+
+  Lemma tr_enc_all : forall (es : list (enc val)) (ds : list (dec val)),
+    Forall2 tr es ds -> tr (enc_all es) (dec_all ds).
+  Proof.
+    induction 1 as [|e d es ds Hed _ IH]; intros vs bs rest H.
+    - destruct vs as [|v vs]; [|discriminate]. cbn [enc_all] in H. inversion H; subst. reflexivity.
+    - destruct vs as [|v vs]; [discriminate|]. cbn [enc_all] in H.
+      destruct (e v) as [x|] eqn:Ex; [|discriminate].
+      destruct (enc_all es vs) as [y|] eqn:Ey; [|discriminate]. inversion H; subst.
+      cbn [dec_all]. rewrite <- app_assoc, (Hed _ _ _ Ex), (IH _ _ _ Ey). reflexivity.
+  Qed.
+
+  Lemma tr_enc_rep (e : enc val) (d : dec val) : tr e d ->
+    forall vs bs rest, enc_rep e vs = Some bs ->
+      dec_rep d (List.length vs) (bs ++ rest) = Some (vs, rest).
+  Proof.
+    intros Hed. induction vs as [|v vs IH]; intros bs rest H; cbn [enc_rep] in H.
+    - inversion H; subst. reflexivity.
+    - destruct (e v) as [x|] eqn:Ex; [|discriminate].
+      destruct (enc_rep e vs) as [y|] eqn:Ey; [|discriminate]. inversion H; subst.
+      cbn [List.length dec_rep]. rewrite <- app_assoc, (Hed _ _ _ Ex), (IH _ _ eq_refl). reflexivity.
+  Qed.
+
   (** ** generic combinators: monotonicity *)
   Lemma dec_le_refl {A} (d : dec A) : dec_le d d.
   Proof. intros b x H. exact H. Qed.
@@ -314,6 +340,102 @@ Section CodecProofs.
       intros OK sh b v H. destruct (decode_encode OK _ _ _ _ H) as (e & He & Hb).
       rewrite app_nil_r in Hb. subst e. exact He.
     Qed.
+
+    (** ** the converse: what the encoder of a shape produces, followed by anything, decodes
+        with the decoder of the same shape to the value encoded and hands the rest back *)
+    Theorem encode_decode_c :
+      prims_rev P -> forall sh c, tr (encode_c P c sh) (decode_c P c sh).
+    Proof.
+      intros REV. induction sh as [p|a IH|a IH|n a IH|l IH|st or _ _|fs IH|vs IH|h l IH|]
+                                    using shape_ind'; intros c.
+      - (* SPrim *)
+        destruct c; cbn [decode_c encode_c]; intros v bs rest H; destruct v; try discriminate;
+          unfold dmap.
+        + rewrite (rev_compact _ _ _ P REV p _ _ rest H). reflexivity.
+        + rewrite (rev_prim _ _ _ P REV p _ _ rest H). reflexivity.
+      - (* SCompact *)
+        destruct c; cbn [decode_c encode_c]; [apply tr_none|exact (IH true)].
+      - (* SSeq *)
+        destruct c; cbn [decode_c encode_c]; [apply tr_none|].
+        intros v bs rest H. destruct v as [x|l0|l0|l0|i l0|x|x]; try discriminate.
+        destruct (lenc P (N.of_nat (List.length l0))) as [x|] eqn:Ex; [|discriminate].
+        destruct (enc_rep (encode_c P false a) l0) as [y|] eqn:Ey; [|discriminate].
+        inversion H; subst. rewrite <- app_assoc.
+        rewrite (rev_len _ _ _ P REV _ _ (y ++ rest) Ex). unfold dmap. rewrite Nat2N.id.
+        rewrite (tr_enc_rep _ _ (IH false) _ _ rest Ey). reflexivity.
+      - (* SArr *)
+        destruct c; cbn [decode_c encode_c]; [apply tr_none|].
+        intros v bs rest H. destruct v as [x|l0|l0|l0|i l0|x|x]; try discriminate.
+        destruct (N.eqb_spec (N.of_nat (List.length l0)) n) as [En|En]; [|discriminate].
+        subst n. unfold dmap. rewrite Nat2N.id.
+        rewrite (tr_enc_rep _ _ (IH false) _ _ rest H). reflexivity.
+      - (* STuple *)
+        destruct c; cbn [decode_c encode_c]; [apply tr_none|].
+        intros v bs rest H. destruct v as [x|l0|l0|l0|i l0|x|x]; try discriminate.
+        unfold dmap.
+        assert (T : tr (enc_all (map (encode_c P false) l)) (dec_all (map (decode_c P false) l))).
+        { apply tr_enc_all. apply Forall2_map_same. eapply Forall_impl; [|exact IH].
+          intros a Ha. exact (Ha false). }
+        rewrite (T _ _ rest H). reflexivity.
+      - (* SBits *)
+        destruct c; cbn [decode_c encode_c]; [apply tr_none|].
+        destruct (cutfree st && cutfree or); [|apply tr_none].
+        intros v bs rest H. destruct v as [x|l0|l0|l0|i l0|x|x]; try discriminate.
+        unfold dmap. rewrite (rev_bits _ _ _ P REV st or _ _ rest H). reflexivity.
+      - (* SStruct *)
+        destruct c; cbn [decode_c encode_c].
+        + destruct fs as [|[[nm bx] a] [|f2 fs]]; try apply tr_none.
+          inversion IH as [|? ? Ha _]; subst. cbn [snd] in Ha.
+          intros v bs rest H. destruct v as [x|l0|l0|l0|i l0|x|x]; try discriminate.
+          destruct l0 as [|x [|x2 l0]]; try discriminate.
+          unfold dmap. rewrite (Ha true _ _ rest H). reflexivity.
+        + intros v bs rest H. destruct v as [x|l0|l0|l0|i l0|x|x]; try discriminate.
+          change (dmap VStruct (dec_all (map (fun f : fshape => decode_c P false (snd f)) fs))
+                       (bs ++ rest) = Some (VStruct l0, rest)).
+          unfold dmap.
+          assert (T : tr (enc_all (map (fun f : fshape => encode_c P false (snd f)) fs))
+                         (dec_all (map (fun f : fshape => decode_c P false (snd f)) fs))).
+          { apply tr_enc_all. apply Forall2_map_same. eapply Forall_impl; [|exact IH].
+            intros f Hf. exact (Hf false). }
+          rewrite (T _ _ rest H). reflexivity.
+      - (* SEnum *)
+        destruct c; cbn [decode_c encode_c]; [apply tr_none|].
+        intros v bs rest H. destruct v as [x|l0|l0|l0|i l0|x|x]; try discriminate.
+        match type of H with
+        | match assoc_idx i ?L with _ => _ end = _ => destruct (assoc_idx i L) as [e|] eqn:Ea
+        end; [|discriminate].
+        apply (assoc_idx_map_some (fun v : string * N * list fshape => snd (fst v)) _
+                 (fun v : string * N * list fshape =>
+                    dec_all (map (fun f : fshape => decode_c P false (snd f)) (snd v)))) in Ea.
+        destruct Ea as (w & Hin & He & Hd). subst e.
+        match type of H with
+        | match ?E l0 with _ => _ end = _ => destruct (E l0) as [y|] eqn:Ey
+        end; [|discriminate].
+        inversion H; subst. cbn [app].
+        match goal with
+        | |- context [assoc_idx i ?L] =>
+            replace (assoc_idx i L)
+              with (Some (dec_all (map (fun f : fshape => decode_c P false (snd f)) (snd w))))
+              by (symmetry; exact Hd)
+        end.
+        rewrite Forall_forall in IH. specialize (IH w Hin).
+        assert (T : tr (enc_all (map (fun f : fshape => encode_c P false (snd f)) (snd w)))
+                       (dec_all (map (fun f : fshape => decode_c P false (snd f)) (snd w)))).
+        { apply tr_enc_all. apply Forall2_map_same. eapply Forall_impl; [|exact IH].
+          intros f Hf. exact (Hf false). }
+        unfold dmap. rewrite (T _ _ rest Ey). reflexivity.
+      - (* SOpaque *)
+        destruct c; cbn [decode_c encode_c]; [apply tr_none|].
+        apply (rev_opaque _ _ _ P REV). apply Forall2_map_same.
+        eapply Forall_impl; [|exact IH]. intros a Ha. exact (Ha false).
+      - (* SCut *)
+        cbn [decode_c encode_c]. apply tr_none.
+    Qed.
+
+    Theorem encode_decode :
+      prims_rev P -> forall sh v bs rest,
+        encode P sh v = Some bs -> decode P sh (bs ++ rest) = Some (v, rest).
+    Proof. intros REV sh. exact (encode_decode_c REV sh false). Qed.
 
     (** ** the codec depends on the shape only *)
     Theorem codec_depends_on_shape :
@@ -525,6 +647,21 @@ Section C01.
     assert (Hd' : decode P (shape_reg r s (n + k) id) b = Some (v, rest)).
     { exact (decode_refines P MONO _ _ _ _ (shape_reg_refines r s n k id) Hd). }
     split; [exact Hd'|]. exact (generate_decode_rest r s teq m OK Hs Hr Hg id t (n + k) b v rest Ht Hd').
+  Qed.
+  (** the other reading of "valid encoding": whatever the registry reading ENCODES (to depth
+      n) is decoded by the generated type, completely and to the value encoded, and the
+      generated type encodes that value to the same bytes *)
+  Theorem generate_encode r s teq m :
+    prims_rev P -> skeleton_consistent r s -> root_fresh s -> generate r s teq = Ok m ->
+    forall id t n b v,
+      resolve_type_path r s id = Ok t ->
+      encode P (shape_reg r s n id) v = Some b ->
+      decode P (shape_rust m s n t) b = Some (v, []) /\
+      encode P (shape_rust m s n t) v = Some b.
+  Proof.
+    intros REV Hs Hr Hg id t n b v Ht He.
+    rewrite (generate_faithful r s teq m Hs Hr Hg n id t Ht). split; [|exact He].
+    pose proof (encode_decode P REV _ _ _ [] He) as H. rewrite app_nil_r in H. exact H.
   Qed.
 End C01.
 
